@@ -222,7 +222,7 @@ fn approx_system<T: Fl, C: Ap<T>>(rep: &mut Report) {
     let sets = settings::<T>();
     let bs = bases::<T>(n);
     const L: usize = 13; // max perturbation letters used (index 0 = unchanged)
-    let k = 2;
+    let k = rep.pick(2, 3);
     let dev = DevSpace::new(n, L - 1, k);
     let total = bs.len() * sets.len() * dev.len();
     rep.cases(
